@@ -48,7 +48,8 @@ Record config := mkCfg {
   gas_initial : Z;           (* InitialGASSupply *)
   hf_faun : bool; hf_gorgon : bool;
   fix_block_dirty : bool;    (* F7 repaired: Policy block/unblock mark the NEO committee cache dirty *)
-  fix_gpv_drop : bool        (* F23 repaired: dropCandidateIfZero removes the cached gas-per-vote entry *)
+  fix_gpv_drop : bool;       (* F23 repaired: dropCandidateIfZero removes the cached gas-per-vote entry *)
+  fix_whitelist : bool       (* F47 repaired: setWhitelistFeeContract refreshes the cached fee of an existing entry *)
 }.
 
 Record ledger := mkL {
@@ -394,6 +395,28 @@ Definition policy_set (st : state) (key v : Z) : result :=
   if negb (policy_in_range key v) then None else
   Some (withA st (set_policy (A st) (aset (Z.to_N key) v (p_store (A st))) (aset (Z.to_N key) v (p_cache (A st)))), None).
 
+(* whitelisted fee of the method "put" of the storage contract deployed by account a: Policy storage prefix 16 /
+   PolicyCache.whitelistedContracts, kept under key 8192 + a as fee + 1 (0 = no entry) *)
+Definition wl_key (a : N) : N := (8192 + a)%N.
+
+(* Policy.setWhitelistFeeContract: storage is always written; the cached entry is inserted only when there was none
+   (the unrepaired code leaves an existing cached entry with its old fee) *)
+Definition whitelist_set (st : state) (a : N) (fee : Z) : result :=
+  if fee <? 0 then None else
+  let k := wl_key a in
+  let c := if negb (aget 0 k (p_cache (A st)) =? 0) && negb (fix_whitelist cfg)
+           then p_cache (A st) else aset k (fee + 1) (p_cache (A st)) in
+  Some (withA st (set_policy (A st) (aset k (fee + 1) (p_store (A st))) c), None).
+
+(* Policy.removeWhitelistFeeContract: panics when the cache has no such entry *)
+Definition whitelist_remove (st : state) (a : N) : result :=
+  let k := wl_key a in
+  if aget 0 k (p_cache (A st)) =? 0 then None else
+  Some (withA st (set_policy (A st) (aset k 0 (p_store (A st))) (aset k 0 (p_cache (A st)))), None).
+
+Definition whitelisted_fee (st : state) (a : N) : option Z :=
+  let v := aget 0 (wl_key a) (p_cache (A st)) in if v =? 0 then None else Some (v - 1).
+
 Definition attr_fee_notary (st : state) : Z := aget 0 (Z.to_N (5120 + 34)) (p_cache (A st)).
 
 (* ---------- NEO settings ---------- *)
@@ -555,6 +578,8 @@ Inductive op :=
 | OSetGPB (v : Z) | OSetReg (v : Z)
 | OBlock (a : N) | OUnblock (a : N)
 | OPolicy (key v : Z)
+| OWhitelist (a : N) (fee : option Z)   (* set / remove the whitelisted fee of contract a's method; the target contract's
+                                           existence is not modelled: a fault reported by the implementation is taken over *)
 | OAbort                 (* a script that faults *)
 | OOpaque.               (* an invocation that does not touch the modelled contracts *)
 
@@ -584,6 +609,10 @@ Definition run_op (st : state) (t : tx) : result :=
   | OBlock a => if committee_witness st t then block_account st a else None
   | OUnblock a => if committee_witness st t then unblock_account st a else None
   | OPolicy key v => if committee_witness st t then policy_set st key v else None
+  | OWhitelist a fee =>
+      if committee_witness st t && i_halt t
+      then match fee with Some f => whitelist_set st a f | None => whitelist_remove st a end
+      else None
   | OAbort => None
   | OOpaque => if i_halt t then Some (st, i_res t) else None
   end.
